@@ -24,6 +24,9 @@ ENGINES = {  # name -> number in Model/Engines.v
     "enc3": 11,
     "varint": 12,
     "respq": 30,
+    "sink3": 31,
+    "sink5": 32,
+    "limiter": 35,
     "dec5": 20,
     "enc5": 21,
     "sniff": 22,
